@@ -47,6 +47,7 @@ class Oracle:
         self.stats['exprs'] += ck.stats.get('exprs', 0)
         self.stats['bound_checks'] += ck.stats.get('bound-checks', 0)
         self.stats['override_checks'] += ck.stats.get('override-checks', 0)
+        self.stats['only_bottom_positions'] = self.stats.get('only_bottom_positions', 0) + ck.stats.get('only-bottom-positions', 0)
         self.stats['skipped_unknown'] += ck.stats.get('skipped', 0) + sum(
             v for k, v in ck.stats.items() if k.startswith('unknown'))
         vs = []
